@@ -4,7 +4,7 @@
    is statistical support for those premises, not a proof. *)
 From Coq Require Import List String Ascii Bool Arith ZArith.
 Import ListNotations.
-Require Import SDJ.Json SDJ.Wire SDJ.Model2 SDJ.Out SDJ.Split SDJ.Restore2 SDJ.Issuer2 SDJ.C13Proofs.
+Require Import SDJ.Json SDJ.Wire SDJ.Model2 SDJ.Out SDJ.Split SDJ.Restore2 SDJ.Issuer1 SDJ.Issuer2 SDJ.C13Proofs.
 Local Open Scope string_scope.
 
 Theorem C13_one_salt_draw_per_disclosure :
